@@ -377,7 +377,10 @@ class RunLengthArray(NPSIndexable, np.lib.mixins.NDArrayOperatorsMixin):
         return self._apply_binary_func(*inputs, ufunc)
 
     def sum(self, axis=-1, out=None):
-        return np.sum(np.diff(self._events)*self._values)
+        lengths = np.diff(self._events)
+        if self._values.dtype == np.uint64:
+            lengths = lengths.astype(np.uint64)  # int64*uint64 is computed in float64, which is not exact
+        return np.sum(lengths*self._values)
 
     def any(self, axis=-1, out=None):
         """TODO, this can be sped up by assuming no empty runs"""
